@@ -28,6 +28,10 @@ CONSTANTS NF,              \* number of folders
           WithCallback     \* a progress callback was given (otherwise nothing is enqueued and no reporter runs)
 
 Folders == 1..NF
+(* Where the worker of a folder in Damaged meets its error.  FALSE: at its first member (damaged packed data: decoder failure, CRC   *)
+(* mismatch).  TRUE (a configuration overrides the definition): at its LAST member, the earlier ones having been delivered - an     *)
+(* output that cannot be written (full disk, something else standing in the file's place).                                        *)
+FailLast == FALSE
 NM(f) == Len(Sizes[f])
 AllMembers == UNION { { <<f, i>> : i \in 1..NM(f) } : f \in Folders }
 
@@ -76,7 +80,7 @@ WStart(f) == /\ mpc = "join" /\ wpc[f] = "s" /\ MayRun(f) /\ ~SeqAborted
 
 (* decode + write + CRC check of one member; a damaged folder fails here *)
 WWrite(f) == /\ mpc = "join" /\ wpc[f] = "write"
-             /\ IF f \in Damaged
+             /\ IF f \in Damaged /\ (FailLast => wi[f] = NM(f))
                 THEN /\ wpc' = [wpc EXCEPT ![f] = "failed"]
                      /\ IF Mode = "process" /\ ~ChildSeesQueues
                         THEN lost' = lost \cup {f} /\ UNCHANGED excq
@@ -137,10 +141,11 @@ Spec == Init /\ [][Next]_vars /\ WF_vars(Next)
 Finished == mpc \in {"closed", "raised"} /\ rpc \in {"stopped", "wait"} /\ (rpc = "wait" => q = <<>>)
 
 (* C13: under every interleaving the delivered outputs are exactly the members of the intact folders ... *)
+Surviving == { m \in AllMembers : m[1] \notin Damaged \/ (FailLast /\ m[2] < NM(m[1])) }
 Deterministic == mpc \in {"open", "closing", "closed", "raised"} =>
                    IF Mode = "seq"
-                   THEN \A m \in out : m[1] \notin Damaged
-                   ELSE out = { m \in AllMembers : m[1] \notin Damaged }
+                   THEN out \subseteq Surviving
+                   ELSE out = Surviving
 (* ... and an error met by any worker reaches the caller *)
 ErrorReachesCaller == mpc \in {"open", "closing", "closed", "raised"} => (callerSaw <=> (Damaged # {}))
 
